@@ -4005,8 +4005,7 @@ static void DecodeEBits(Word Index) {
         OpSize = eSymbolSize8Bit;
         if (DecodeAdr(
                     &ArgStr[1],
-                    MModData | MModAdrI | MModPost | MModPre | MModDAdrI | MModAIX
-                            | MModPC | MModPCIdx | MModAbs,
+                    MModData | MModAdrI | MModDAdrI | MModAIX | MModPC | MModPCIdx | MModAbs,
                     &AdrResult)) {
             LongInt ThisCodeLen = 4 + AdrResult.Cnt;
 
@@ -4037,8 +4036,7 @@ static void DecodeBFINS(Word Index) {
         OpSize = eSymbolSize8Bit;
         if (DecodeAdr(
                     &ArgStr[2],
-                    MModData | MModAdrI | MModPost | MModPre | MModDAdrI | MModAIX
-                            | MModAbs,
+                    MModData | MModAdrI | MModDAdrI | MModAIX | MModAbs,
                     &AdrResult)) {
             LongInt ThisCodeLen = 4 + AdrResult.Cnt;
 
